@@ -1166,6 +1166,13 @@ func (r *run) checkEqual() {
 			return
 		}
 		s.Probe("equal_reencoding_checked")
+		// ... also when the other producer left garbage in the padding after its sub-word lists
+		if p5, err := (&capnp.Message{Arena: capnp.MultiSegment(wire.Encode(a.m, wire.EncOpts{DirtyPadding: true}))}).Root(); err == nil {
+			if got, err := capnp.Equal(a.p, p5); err != nil || !got {
+				r.fail("equal_mismatch", site, fmt.Sprintf("a value does not equal its re-encoding with non-zero list padding (err=%v): %s", err, clip(a.m.String())))
+				return
+			}
+		}
 		// ... and stops being equal after one leaf changes
 		mut := a.m.Clone()
 		if mutateLeaf(mut, func(n int) int { return s.Choice("mut", n) }) && !ambiguousForEqual(a.m, mut) && !wire.Equal(a.m, mut) {
@@ -1303,6 +1310,17 @@ func (r *run) checkCanonical() {
 				return
 			}
 			s.Probe("canonical_replica_checked")
+		}
+		// ... and a producer that leaves garbage in the alignment padding of its sub-word lists
+		segs = wire.Encode(a.m, wire.EncOpts{DirtyPadding: true})
+		m5 := &capnp.Message{Arena: capnp.MultiSegment(segs)}
+		if p5, err := m5.Root(); err == nil {
+			c5, err := capnp.Canonicalize(p5.Struct())
+			if err != nil || !bytes.Equal(c5, got) {
+				r.fail("replica_divergence", site, fmt.Sprintf("an encoding of the same value with non-zero list padding canonicalises differently (err=%v)\n value %s\n a %x\n b %x", err, clip(a.m.String()), got, c5))
+				return
+			}
+			s.Probe("canonical_dirty_padding_replica_checked")
 		}
 		padded := padValue(a.m, func(n int) int { return s.Choice("pad", n) })
 		segs = wire.Encode(padded, wire.EncOpts{})
